@@ -81,6 +81,10 @@ def _gen_witnesses():
 
 N_HAND_WITNESSES = len(WITNESSES)
 WITNESSES += _gen_witnesses()
+WITNESSES += [  # statements that carry trivia a coercion has to strip: trailing semicolons, comments
+    ('f(x);', 'stmt'), ('[a, b];', 'stmt'), ('Point(x=0) ;', 'stmt'), ('x;  # c', 'stmt'), ('a = b;', 'stmt'), ('x  # c', 'stmt'),
+    ('del a, b;', 'stmt'), ('import a, b;', 'stmt'),
+]
 
 MODES = ['all', 'strict', 'exec', 'eval', 'single', 'stmts', 'stmt', 'ExceptHandler', '_ExceptHandlers', 'match_case', '_match_cases',
          'expr', 'expr_all', 'expr_arglike', 'expr_slice', 'Tuple_elt', 'Tuple', '_Assign_targets', '_decorator_list', '_arglike',
